@@ -34,10 +34,10 @@ type Target struct {
 	// TrustLocals: locals that atoms may mention although they are written more than once (e.g. filled in
 	// through a pointer by a decode call); the spec author vouches that every atom mentioning them is read
 	// after the last write.
-	TrustLocals []string `json:"trust_locals"`
-	Ignore      []string `json:"ignore"` // callee texts of calls without modelled effect (locks, logging, metrics)
-	Calls  []*CallSpec       `json:"calls"`
-	Emits  []*Emit           `json:"emits"`
+	TrustLocals []string    `json:"trust_locals"`
+	Ignore      []string    `json:"ignore"` // callee texts of calls without modelled effect (locks, logging, metrics)
+	Calls       []*CallSpec `json:"calls"`
+	Emits       []*Emit     `json:"emits"`
 	// ActionType: Gallina type of the emitted actions (required when Emits is not empty).
 	ActionType string `json:"action_type"`
 	// TypeSwitch: how `switch x := e.(type)` cases map to constructors of e's Gallina type.
